@@ -1437,6 +1437,22 @@ class Extractor:
                         continue
                     cbody = src.text[cdefs[0]['body_lb'] + 1:cdefs[0]['body_rb']].strip()
                     if not re.match(r'^return\b[^;]*;$', cbody, re.S):
+                        # a helper with a real body (e.g. introduced by a refactoring): extracted as a C function of
+                        # its own with the caller's unit rewrites (none of them must fire) and called from here
+                        if a.get('autoextract', '1') == '1' and not a.get('_helper'):
+                            hname = '%s__%s' % (a['cname'], cand)
+                            hb = Block('function', dict(file=a['file'], name=cand, cname=hname, _helper='1'), blk.lineno)
+                            hb.attrs['class'] = a['class']
+                            for kk in ('self', 'struct', 'constref'):
+                                if kk in a:
+                                    hb.attrs[kk] = a[kk]
+                            hb.rewrites = [(rx, rp, 0) for (rx, rp, mn) in blk.rewrites]
+                            hb.callmap = dict(blk.callmap)
+                            hb.end_line = blk.lineno
+                            htxt = self.function(hb, member_names_by_class)
+                            self._helper_texts.append(htxt)
+                            inner, kh = re.subn(r'(?<![\w.>:])' + re.escape(cand) + r'\s*\(', hname + '(', inner)
+                            rep['rules']['auto_extract_helper:%s' % cand] = kh
                         continue
                     inner, k = self.inline_calls(inner, cand, a['file'], a['class'], rep)
                     if k:
@@ -1570,7 +1586,10 @@ class Extractor:
                     member_names[it.attrs['class']] = names
                     out.append(txt)
                 else:
-                    out.append(self.function(it, member_names))
+                    self._helper_texts = []
+                    ftxt = self.function(it, member_names)
+                    out.extend(self._helper_texts)
+                    out.append(ftxt)
         return '\n'.join(out) + '\n', jobs
 
 
